@@ -3,6 +3,7 @@ CONSTANTS
   Pool <- PoolDef
   InitSet <- Init_thorough
   Ops <- OpsC03
+  DeepOps <- OpsC03
   MaskPats <- NoMasks
   PadModes <- NoModes
   RotKs <- NoKs
